@@ -128,7 +128,7 @@ fn mask_http(mut h: HttpRes) -> HttpRes {
     h
 }
 
-pub fn check_trace(r: &mut Report, kinds: &[(&'static str, Vec<u8>)], trace: &[usize], cfg: Cfg) {
+pub fn check_trace(r: &mut Report, kinds: &[(&str, Vec<u8>)], trace: &[usize], cfg: Cfg) {
     let d = crate::drv::db();
     let res = guarded(|| {
         let config = huginn_net::AnalysisConfig { http_enabled: cfg.http, tcp_enabled: cfg.tcp, tls_enabled: cfg.tls, matcher_enabled: cfg.matcher };
@@ -219,9 +219,47 @@ pub fn check_trace(r: &mut Report, kinds: &[(&'static str, Vec<u8>)], trace: &[u
     r.sample(|| json!({"trace": trace.iter().map(|&k| kinds[k].0).collect::<Vec<_>>(), "config": format!("{cfg:?}")}));
 }
 
+/// link-layer framings, incl. Ethernet frames whose MAC addresses another framing would also accept (raw IPv4 / IPv6
+/// header, NULL/loopback header of either family): every analyzer has its own copy of the frame parser
+pub const FRAMINGS: [&str; 8] = ["ethernet", "loopback-1e", "macs-like-ipv4-header", "macs-like-ipv6-header", "macs-like-loopback-1e-then-ipv4", "macs-like-loopback-1e-then-ipv6", "macs-like-loopback-02", "macs-like-loopback-18"];
+fn reframe(framing: usize, ip: &[u8]) -> Vec<u8> {
+    let macs: Option<[u8; 12]> = match framing {
+        2 => Some([0x45, 0, 0, 0x28, 0, 0, 0x40, 0, 0x40, 0x06, 0, 0]),
+        3 => Some([0x60, 0, 0, 0, 0, 0x14, 0x06, 0x40, 0x20, 0x01, 0, 0]),
+        4 => Some([0x1e, 0, 0x5e, 0x12, 0x45, 0x01, 0x02, 0, 0, 0x06, 0, 0x01]),
+        5 => Some([0x1e, 0, 0, 0, 0x60, 0x01, 0x02, 0, 0, 0, 0x06, 0x01]),
+        6 => Some([0x02, 0, 0, 0, 0x45, 0x00, 0x00, 0x28, 0, 0, 0x40, 0x00]),
+        7 => Some([0x18, 0, 0, 0, 0x60, 0x00, 0x00, 0x00, 0, 0x14, 0x06, 0x40]),
+        _ => None,
+    };
+    match (framing, macs) {
+        (1, _) => pkt::frame(Link::Null(0x1e), ip),
+        (_, Some(m)) => {
+            let mut f = pkt::frame(Link::Ethernet, ip);
+            f[..12].copy_from_slice(&m);
+            f
+        }
+        _ => pkt::frame(Link::Ethernet, ip),
+    }
+}
+/// the five result-bearing packet kinds in every framing, appended to the raw-IP kinds
+pub fn all_kinds() -> Vec<(String, Vec<u8>)> {
+    let base = packet_kinds();
+    let mut v: Vec<(String, Vec<u8>)> = base.iter().map(|(n, f)| (n.to_string(), f.clone())).collect();
+    for (fi, fname) in FRAMINGS.iter().enumerate() {
+        for core in ["syn-ts", "synack-ts", "http-request", "http-response", "clienthello"] {
+            if let Some((_, ip)) = base.iter().find(|(n, _)| *n == core) {
+                v.push((format!("{core}@{fname}"), reframe(fi, ip)));
+            }
+        }
+    }
+    v
+}
+
 pub fn run(thorough: bool) -> Outcome {
-    let kinds = packet_kinds();
-    let k = kinds.len();
+    let owned = all_kinds();
+    let kinds: Vec<(&str, Vec<u8>)> = owned.iter().map(|(n, f)| (n.as_str(), f.clone())).collect();
+    let k = packet_kinds().len();
     let depth = if thorough { 5 } else { 4 };
     let mut traces: Vec<Vec<usize>> = vec![];
     for n in 1..=depth {
@@ -232,6 +270,20 @@ pub fn run(thorough: bool) -> Outcome {
                 i /= k;
             }
             traces.push(t);
+        }
+    }
+    // framed kinds: every trace of <= 3 packets within one framing
+    for fi in 0..FRAMINGS.len() {
+        let base = k + fi * 5;
+        for n in 1..=3usize {
+            for mut i in 0..5usize.pow(n as u32) {
+                let mut t = vec![];
+                for _ in 0..n {
+                    t.push(base + i % 5);
+                    i /= 5;
+                }
+                traces.push(t);
+            }
         }
     }
     let mut cfgs = vec![];
@@ -259,7 +311,8 @@ pub fn run(thorough: bool) -> Outcome {
 
 pub fn replay(ex: &Value) -> Report {
     let mut r = Report::new();
-    let kinds = packet_kinds();
+    let owned = all_kinds();
+    let kinds: Vec<(&str, Vec<u8>)> = owned.iter().map(|(n, f)| (n.as_str(), f.clone())).collect();
     let names: Vec<String> = ex["trace"].as_array().map(|a| a.iter().filter_map(|x| x.as_str().map(|s| s.to_string())).collect()).unwrap_or_default();
     let trace: Vec<usize> = names.iter().filter_map(|n| kinds.iter().position(|k| k.0 == n)).collect();
     if trace.is_empty() {
